@@ -97,12 +97,20 @@ func creator() string {
 }
 
 func register(kind string, d Duration, buf int) *Waiter {
+	return registerWith(kind, d, buf, nil)
+}
+
+// registerWith: init runs before the waiter becomes visible to the harness.
+func registerWith(kind string, d Duration, buf int, init func(w *Waiter)) *Waiter {
 	lbl := creator()
 	mu.Lock()
 	defer mu.Unlock()
 	activity++
 	nextID++
 	w := &Waiter{ID: nextID, Kind: kind, Label: lbl, Period: d, Created: now, C: make(chan Time, buf)}
+	if init != nil {
+		init(w)
+	}
 	waiters = append(waiters, w)
 	return w
 }
@@ -163,8 +171,7 @@ func (t *Timer) Reset(d Duration) bool {
 func After(d Duration) <-chan Time { return NewTimer(d).C }
 
 func AfterFunc(d Duration, f func()) *Timer {
-	w := register("timer", d, 1)
-	w.f = f
+	w := registerWith("timer", d, 1, func(w *Waiter) { w.f = f })
 	return &Timer{C: w.C, w: w}
 }
 
@@ -173,9 +180,9 @@ func Sleep(d Duration) {
 	if d <= 0 {
 		return
 	}
-	w := register("sleep", d, 0)
-	w.release = make(chan struct{})
-	<-w.release
+	rel := make(chan struct{})
+	registerWith("sleep", d, 0, func(w *Waiter) { w.release = rel }) // set under the clock's lock: Fire reads it there
+	<-rel
 }
 
 // ---- harness side
@@ -235,18 +242,17 @@ func Find(kind, sub string) []*Waiter {
 func WithTimeout(parent context.Context, d Duration) (context.Context, context.CancelFunc) {
 	inner, cancel := context.WithCancel(parent)
 	c := &vctx{Context: inner}
-	w := register("timer", d, 1)
-	mu.Lock()
-	w.Label = "ctx:" + w.Label
-	w.f = func() {
-		c.mu.Lock()
-		if c.Context.Err() == nil {
-			c.timedOut = true
+	w := registerWith("timer", d, 1, func(w *Waiter) {
+		w.Label = "ctx:" + w.Label
+		w.f = func() {
+			c.mu.Lock()
+			if c.Context.Err() == nil {
+				c.timedOut = true
+			}
+			c.mu.Unlock()
+			cancel()
 		}
-		c.mu.Unlock()
-		cancel()
-	}
-	mu.Unlock()
+	})
 	return c, func() {
 		mu.Lock()
 		w.stopped = true
